@@ -248,9 +248,19 @@ impl<'a> Child<'a> {
         let payload = rng.bytes(300);
         let msg = refspec::noise_x_write(&prologue, &s, &s_pub, &r_pub, &rng.arr32(), &payload).unwrap().message;
         let mut inputs: Vec<(&str, Vec<u8>)> = Vec::new();
+        inputs.push(("complete authentic message", msg.clone()));
         for l in 0..=300usize.min(msg.len()) {
             inputs.push(("prefix of authentic message", msg[..l].to_vec()));
             inputs.push(("random bytes", rng.bytes(l)));
+        }
+        // complete, correctly authenticated messages whose payload is not a 32-byte key
+        let mut whole: Vec<Vec<u8>> = Vec::new();
+        for pl in [0usize, 1, 15, 16, 31, 32, 33, 48, 64, 1000, 65439] {
+            let p = rng.bytes(pl);
+            whole.push(refspec::noise_x_write(&prologue, &s, &s_pub, &r_pub, &rng.arr32(), &p).unwrap().message);
+        }
+        for m in whole {
+            inputs.push(("authentic message with another payload size", m));
         }
         for l in [65519usize, 65534, 65535, 65536, 65537, 70000, 200_000] {
             inputs.push(("long random message", rng.bytes(l)));
